@@ -117,9 +117,45 @@ func (c *Ctx) findDisasm() (*ast.FuncDecl, *ast.SwitchStmt) {
 				}
 				continue
 			}
+			hasIntParam := false
+			for i := 0; i < sig.Params().Len(); i++ {
+				if isInt(sig.Params().At(i).Type()) {
+					hasIntParam = true
+				}
+			}
 			for _, s := range fd.Body.List {
 				if sw, ok := s.(*ast.SwitchStmt); ok && sw.Tag != nil && isNamed(c.typeOf(sw.Tag), bclPath, "opcode") {
-					return fd, sw
+					if hasIntParam {
+						return fd, sw
+					}
+					// the dispatch is a method of a value that carries the offset (it returns the size): the decoder is
+					// its caller that is given the offset and returns the next one
+					for _, it := range c.sortedDecls() {
+						cd := it.fd
+						co, isF := it.obj.(*types.Func)
+						if !isF || cd.Body == nil || cd == fd || cd == vmfd || co.Pkg() == nil || co.Pkg().Path() != bclPath {
+							continue
+						}
+						cs := co.Type().(*types.Signature)
+						if cs.Results().Len() != 1 || !isInt(cs.Results().At(0).Type()) {
+							continue
+						}
+						okParam := false
+						for i := 0; i < cs.Params().Len(); i++ {
+							if isInt(cs.Params().At(i).Type()) {
+								okParam = true
+							}
+						}
+						calls := false
+						walkCalls(cd.Body, false, func(call *ast.CallExpr) {
+							if c.callee(call) == types.Object(obj) {
+								calls = true
+							}
+						})
+						if okParam && calls {
+							return cd, sw
+						}
+					}
 				}
 			}
 			// table form: the opcode fetched from Prog.code at the int parameter indexes a package-level table
@@ -200,9 +236,39 @@ func (c *Ctx) disModel() (*disModel, error) {
 		p.reads = append(p.reads, disRead{kind, l, size, pos})
 		return size
 	}
-	isCode := func(e ast.Expr) bool { return c.fieldPath(e) == "<Prog>.code" }
+	// the program's tables, also when the program is held in a field of a small struct (i.prog.code)
+	progPath := func(e ast.Expr) string {
+		fp := c.fieldPath(e)
+		if strings.HasPrefix(fp, "<Prog>.") {
+			return fp
+		}
+		if f := c.progField(e); f == "code" || f == "constants" {
+			return "<Prog>." + f
+		}
+		// a local standing for one of the tables: code, consts := in.prog.code, in.prog.constants
+		if id, ok := stripParens(e).(*ast.Ident); ok {
+			if v, isVar := c.objOf(id).(*types.Var); isVar && !v.IsField() && v.Parent() != nil && v.Parent() != v.Pkg().Scope() {
+				for _, it := range c.sortedDecls() {
+					if it.fd.Body == nil || v.Pos() < it.fd.Pos() || v.Pos() > it.fd.End() {
+						continue
+					}
+					if def, k := c.singleDef(it.fd.Body, v); k == 1 && def != nil {
+						dfp := c.fieldPath(def)
+						if strings.HasPrefix(dfp, "<Prog>.") {
+							return dfp
+						}
+						if f := c.progField(def); f == "code" || f == "constants" {
+							return "<Prog>." + f
+						}
+					}
+				}
+			}
+		}
+		return fp
+	}
+	isCode := func(e ast.Expr) bool { return progPath(e) == "<Prog>.code" }
 	h.Index = func(in *Interp, st *State, e *ast.IndexExpr, x, idx Value) (Value, bool) {
-		switch c.fieldPath(e.X) {
+		switch progPath(e.X) {
 		case "<Prog>.code":
 			codeRead(in, st, "B", e.Index, e.Pos())
 			// the byte at the instruction offset is the opcode being listed
@@ -423,6 +489,13 @@ func checkEmitPrimitives(c *Ctx, r *Report, rule string) {
 				others++
 			}
 		}
+		if !(writes == 1 && others == 0 && okArgs) {
+			// written through another primitive: decided on the interpreted body
+			if ok, _ := c.emitPrimOK(fd, func(p string) bool { return p == "w(param(0))@prevpos" }); ok {
+				r.ok(rule, name, "interpreted: exactly one write of the parameter at p.prev.pos")
+				continue
+			}
+		}
 		r.check(writes == 1 && others == 0 && okArgs, rule, name, "one unconditional write(param, p.prev.pos)",
 			fmt.Sprintf("%s must write exactly its parameter once, unconditionally, at p.prev.pos (writes=%d, other emitters=%d, args ok=%v)", name, writes, others, okArgs), c.pos(fd.Pos()))
 	}
@@ -446,6 +519,11 @@ func checkEmitPrimitives(c *Ctx, r *Report, rule string) {
 		for _, cs := range c.callsOf(fd) {
 			if cs.Name == "Prog.write" || isEmitter(cs.Name) {
 				nWrites++
+			}
+		}
+		if !(ok && nLoops == 1 && nWrites == 1) {
+			if okm, _ := c.emitPrimOK(fd, func(p string) bool { return p == "each(param(0)):w(elem(param(0)))@prevpos" }); okm {
+				ok, nLoops, nWrites = true, 1, 1
 			}
 		}
 		r.check(ok && nLoops == 1 && nWrites == 1, rule, "parser.emitBytes", "writes each element of its argument once, in order, at p.prev.pos",
@@ -497,6 +575,27 @@ func checkEmitPrimitives(c *Ctx, r *Report, rule string) {
 					ok = false
 					why = "contains control flow; " + why
 				}
+			}
+		}
+		if !ok {
+			// enc(param)>buf/N ; each(bufslice(buf[:n(buf)])):w(elem(bufslice(buf[:n(buf)])))@prevpos   with N >= 9
+			if okm, _ := c.emitPrimOK(fd, func(p string) bool {
+				parts := strings.Split(p, " ; ")
+				if len(parts) != 2 || !strings.HasPrefix(parts[0], "enc(param(0))>") {
+					return false
+				}
+				bn := strings.SplitN(strings.TrimPrefix(parts[0], "enc(param(0))>"), "/", 2)
+				if len(bn) != 2 {
+					return false
+				}
+				var n int
+				if _, err := fmt.Sscanf(bn[1], "%d", &n); err != nil || n < 9 {
+					return false
+				}
+				sl := "bufslice(" + bn[0] + "[:n(" + bn[0] + ")])"
+				return parts[1] == "each("+sl+"):w(elem("+sl+"))@prevpos"
+			}); okm {
+				ok = true
 			}
 		}
 		r.check(ok, rule, "parser.emitUvarint", "encodes its argument with uvarintToBytes into a >=9-byte buffer and emits exactly the encoded bytes", "emitUvarint "+why, c.pos(fd.Pos()))
